@@ -70,6 +70,10 @@ def _case_class(c):
     extra = ""
     if c.get("gun") == "connect":
         extra = " gun=connect cssl=%s cstatus=%s" % (c["cssl"], c["cstatus"])
+    if c.get("gun") == "http2":
+        extra = " gun=http2 target-offers-h2=%s" % c.get("h2")
+    elif c.get("h2"):
+        extra = " target-offers-h2=True"
     if c.get("tname"):
         extra = " target=by-name"
     if "mw" in c:
@@ -110,9 +114,9 @@ def validate_cases(v, obs_path, cfg, timeout=900):
                         replay_name="file_%d_%d_%s.json" % (row["id"], k, inv))
             continue
         v.violation("wire %s inv=%s" % (_case_class(c), inv),
-                    "case %d %s: target saw %s (samples %s, err=%r) — rule %s of HttpWire.tla fails; ammo file %r, headers option %s" % (
+                    "case %d %s: target saw %s (samples %s, err=%r, panic=%r) — rule %s of HttpWire.tla fails; ammo file %r, headers option %s" % (
                         row["id"], {k: c[k] for k in ("fmt", "ssl", "method", "uri", "host", "ehdr", "body")},
-                        row["obs"], row["samples"], row["err"], inv, row["file"], c["opts"]),
+                        row["obs"], row["samples"], row["err"], row.get("panic", ""), inv, row["file"], c["opts"]),
                     replay_obj={"kind": "case", "invariant": inv, "case": {"id": row["id"], "c": c}, "observed": row, "cfg": cfg} if keep else None,
                     replay_name="case_%d_%s.json" % (row["id"], inv))
     return rows, tr
@@ -161,7 +165,7 @@ def run(tier, v):
             ("HttpConnMC", "HttpConn_neg_ownclient.cfg"), ("HttpConnMC", "HttpConn_neg_noexpire.cfg"),
             ("HttpWireMC", "HttpWire_neg_shared_cursor.cfg"), ("HttpWireMC", "HttpWire_neg_framing_chunked.cfg"),
             ("HttpWireMC", "HttpWire_neg_target_resolved.cfg"),
-            ("HttpWireMC", "HttpWire_neg_uri_rebuilt.cfg")]
+            ("HttpWireMC", "HttpWire_neg_uri_rebuilt.cfg"), ("HttpWireMC", "HttpWire_neg_h2_fallback.cfg")]
     if not thorough:
         # quick: one negative control per mechanism; the thorough tier runs all of them
         skip = ("host_target", "opt_always", "mw_twice", "side_changes", "shared1", "noreuse", "empty_undefined")
@@ -234,6 +238,9 @@ def run(tier, v):
         "conn_runs_connect_gun": sum(1 for r in runs if r.get("gun") == "connect"),
         "conn_runs_shared_client": sum(1 for r in runs if r.get("shared")),
         "named_target_cases": sum(1 for c in gen if c["c"].get("tname")),
+        "http2_gun_cases": sum(1 for c in gen if c["c"].get("gun") == "http2"),
+        "http2_gun_cases_target_without_h2": sum(1 for c in gen if c["c"].get("gun") == "http2" and not c["c"].get("h2")),
+        "http1_guns_against_h2_capable_target": sum(1 for c in gen if c["c"].get("gun") != "http2" and c["c"].get("h2")),
         "rfc3986_target_cases": sum(1 for c in gen if "rt" in c["c"]),
         "rfc3986_targets": len({c["c"]["uri"] for c in gen if "rt" in c["c"]}),
         "reuse_cases": len(reuse_ids), "reuse_requests_checked": sum(1 for r in rows if r["id"] in reuse_ids),
